@@ -237,7 +237,7 @@ def check_case(case, acc):
     elif kind == "downsample":
         seqs = list(case[1])
         N = len(seqs)
-        boxes = {"list": lambda: list(seqs), "ndarray": lambda: np.array(seqs, dtype=object) if not seqs else np.array(seqs), "series": lambda: pd.Series(seqs, index=range(3, 3 + N), dtype=object),
+        boxes = {"list": lambda: list(seqs), "tuple": lambda: tuple(seqs), "ndarray": lambda: np.array(seqs, dtype=object) if not seqs else np.array(seqs), "series": lambda: pd.Series(seqs, index=range(3, 3 + N), dtype=object),
                  "table": lambda: pd.DataFrame({"CDR3B": seqs, "k": list(range(N))}, index=range(7, 7 + N)),
                  "table-duplicate-labels": lambda: pd.DataFrame({"CDR3B": seqs, "k": list(range(N))}, index=[i // 2 for i in range(N)])}
         for bname, mk in boxes.items():
